@@ -80,6 +80,7 @@ type World struct {
 	stepIdx  int
 	beginReq abci.RequestBeginBlock
 	blockTxs [][]byte
+	journal  []func(n *Node) // everything applied to the nodes in the current block, for replay after a crash
 	stash    map[int][]byte
 	files    []*FileInst
 	res      *RunResult
@@ -93,6 +94,7 @@ type World struct {
 	aborted  bool
 	stateSet map[string]bool
 	maxViol  int
+	violCount map[string]int
 	nBlocks  int
 	// scratch for oracles/generators
 	X map[string]interface{}
@@ -102,9 +104,16 @@ func (w *World) node() *Node { return w.nodes[0] }
 func (w *World) maxBlockIdx() int { return w.nBlocks - 1 }
 
 func (w *World) Violate(class, format string, args ...interface{}) {
+	if w.violCount == nil {
+		w.violCount = map[string]int{}
+	}
+	w.violCount[class]++
+	if w.violCount[class] > 2 {
+		return // the same class again in this run: already recorded twice
+	}
 	v := Violation{Class: class, Block: w.blockIdx, Step: w.stepIdx, Height: w.height, Detail: fmt.Sprintf(format, args...)}
 	w.res.Violations = append(w.res.Violations, v)
-	if len(w.res.Violations) >= w.maxViol {
+	if len(w.violCount) >= w.maxViol {
 		w.stop = true
 	}
 }
@@ -249,10 +258,10 @@ func digestTx(r *abci.ResponseDeliverTx) string {
 
 func (w *World) diverge(what string, n *Node, a, b string) {
 	kind := "peer"
-	if strings.HasPrefix(n.name, "R") {
-		kind = "restarted"
+	if strings.HasPrefix(n.name, "R") || strings.HasPrefix(w.node().name, "R") {
+		kind = "restarted" // one of the two nodes compared went through a crash/restart
 	}
-	w.Violate("diverge:"+what+":"+kind, "node %s differs from primary at height %d: %s vs %s", n.name, w.height, b, a)
+	w.Violate("C06:diverge:"+what+":"+kind, "node %s differs from primary at height %d: %s vs %s", n.name, w.height, b, a)
 }
 
 // BeginBlock starts the next block dt after the previous one.
@@ -263,6 +272,7 @@ func (w *World) BeginBlock(dt time.Duration) bool {
 		ProposerAddress: valKey().PubKey().Address()}
 	w.beginReq = abci.RequestBeginBlock{Header: w.hdr, LastCommitInfo: valCommitInfo(w.cfg)}
 	w.blockTxs = nil
+	w.journal = nil
 	w.blkHash = nil
 	w.oracle.BeforeBegin(w)
 	var res0 abci.ResponseBeginBlock
@@ -300,15 +310,23 @@ func (w *World) Deliver(bz []byte) *abci.ResponseDeliverTx {
 			switch {
 			case res0.Code != res.Code || res0.Codespace != res.Codespace:
 				what = "tx-code"
+			case res0.GasUsed != res.GasUsed && res0.GasWanted == 0 && res.GasWanted == 0 && res0.Code != 0:
+				// rejected by stateless validation before the ante handler installed a gas meter:
+				// GasUsed then reports whatever the block context's meter accumulated in BeginBlock
+				what = "gas-used-of-tx-rejected-before-ante"
 			case res0.GasUsed != res.GasUsed || res0.GasWanted != res.GasWanted:
 				what = "tx-gas"
 			case string(res0.Data) != string(res.Data):
 				what = "tx-data"
 			}
+			if os.Getenv("VERIF_DEBUG") != "" {
+				fmt.Fprintf(os.Stderr, "DIVERGE primary log: %s\n  node %s log: %s\n", res0.Log, n.name, res.Log)
+			}
 			w.diverge(what, n, a, b)
 		}
 	}
 	w.blockTxs = append(w.blockTxs, bz)
+	w.journal = append(w.journal, func(n *Node) { n.app.DeliverTx(abci.RequestDeliverTx{Tx: bz}) })
 	w.blkHash = append(w.blkHash, "T:"+digestTx(&res0))
 	w.res.Txs++
 	if res0.Code == 0 {
@@ -390,9 +408,9 @@ func (w *World) crashRestart(i int) {
 		if !ok {
 			return
 		}
-		for _, bz := range w.blockTxs {
-			bz := bz
-			if !w.safely("DeliverTx", func() { n.app.DeliverTx(abci.RequestDeliverTx{Tx: bz}) }) {
+		for _, act := range w.journal {
+			act := act
+			if !w.safely("DeliverTx", func() { act(n) }) {
 				return
 			}
 		}
